@@ -26,10 +26,44 @@ class Frob(AbstractValue):
         return Frob(self.pt, self.idx, self.k, -self.sign)
 
 
+class DerivedCoord(AbstractValue):
+    """a field value computed from formal coordinates by arithmetic the formal domain does not follow"""
+    sort = "field"
+
+    def __init__(self, desc):
+        self.desc = desc
+
+    def v_binop(self, op, other, reflected, it):
+        return DerivedCoord(f"{op}(…)")
+
+    def __neg__(self):
+        return DerivedCoord("neg(…)")
+
+    def v_getattr(self, name, it):
+        if name in ("one", "zero"):
+            return lambda: DerivedCoord(name)
+        raise AnalysisError(f"attribute {name} of a derived coordinate")
+
+    def v_compare(self, op, other, it):
+        return Term("derived_cmp", (op, id(self)), "bool")
+
+    def __repr__(self):
+        return f"<derived {self.desc}>"
+
+    def __deepcopy__(self, memo):
+        return self
+
+
 def coord_pow(self, op, other, reflected, it):
     if op == "pow" and not reflected and other == getattr(it, "miller_p", None):
         return Frob(self.pt, self.idx, 1)
+    if getattr(it, "allow_derived_coords", False):
+        return DerivedCoord(f"{op} on coordinate {self.idx} of {getattr(self.pt, 'name', '?')}")
     raise AnalysisError(f"operator {op} on a formal coordinate")
+
+
+CoordConst.v_binop = lambda self, op, other, reflected, it: (DerivedCoord(f"{op} on {self.which}")
+                                                             if getattr(it, "allow_derived_coords", False) else NotImplemented)
 
 
 CoordOf.v_binop = coord_pow
@@ -283,6 +317,8 @@ def analyse_pairing_entry(world, repo, modname, optimized, Qv="sym", Pv="sym"):
         pt, coef = args
         if pt is None:
             return NotImplemented
+        if not isinstance(pt, PSym):
+            return Term("is_on_curve", ("derived point", _hashable(coef)), "bool")
         return Term("is_on_curve", (pt.name, _hashable(coef)), "bool")
 
     def s_ml(it, fr, args, kw, node):
@@ -294,6 +330,8 @@ def analyse_pairing_entry(world, repo, modname, optimized, Qv="sym", Pv="sym"):
     def s_twist(it, fr, args, kw, node):
         if args[0] is None:
             return NotImplemented
+        if not isinstance(args[0], PSym):
+            return ("not-the-validated-point", args[0])
         return PSym(args[0].comb, True, args[0].name)
 
     def s_cast(it, fr, args, kw, node):
@@ -303,6 +341,7 @@ def analyse_pairing_entry(world, repo, modname, optimized, Qv="sym", Pv="sym"):
     summ = {q("is_on_curve"): s_onc, ml.qualname: s_ml, q("twist"): s_twist, f"{modname}.cast_point_to_fq12": s_cast}
 
     def run(it):
+        it.allow_derived_coords = True
         if optimized:
             return it.call_func(f, [Q, Pt], {"final_exponentiate": flag})
         return it.call_func(f, [Q, Pt], {})
